@@ -91,6 +91,28 @@ def h_cluster(E, shapes, use_attr, same_ids=False):
         E.check(pb != p0, "batched-partition-differs-from-one-shot", dict(batch_size=bs))
         tcls = [t.get("class") for t in templates]
         E.check(len(set(tcls)) != len(tcls) or len(tcls) != len(p0), "one-template-per-class", dict(batch_size=bs, templates=tcls))
+    # batched classification against a library that already exists and is held in another order (re-sorted / reloaded)
+    if m >= 3:
+        first, rest = perm[:-1], perm[-1:]
+        d0, lib = BatchCluster().fit(mk(first), [], rule_key="g", attribute_key=akey, batch_size=None)
+        lib_cls = {t["idx"]: t["class"] for t in lib}
+        known = {e["idx"]: e["class"] for e in d0}
+        lib_rev = [dict(t) for t in reversed(lib)]
+        for bs in (1, 2):
+            d1, lib2 = BatchCluster().fit(mk(rest + first[:1]), [dict(t) for t in lib_rev], rule_key="g", attribute_key=akey,
+                                          batch_size=bs)
+            c_new = {e["idx"]: e["class"] for e in d1}
+            i = rest[0]
+            bad = []
+            match_any = []
+            for j, cj in known.items():
+                f = iso[(min(i, j), max(i, j))]
+                match_any.append(f)
+                bad.append(NOT(f) if c_new[i] == cj else f)
+            bad.append(AND(NOT(OR(match_any)), c_new[i] in set(known.values())))
+            bad.append(c_new[first[0]] != known[first[0]])
+            E.check(OR(bad), "batched-classification-against-an-existing-library", dict(batch_size=bs, arrival=perm, new=c_new,
+                                                                                        library=sorted(known.items())))
     # incremental classification in arrival order; the representative library may be held in any order
     # (re-ordered / reloaded from a keyed store): before the last arrival it is reversed
     bc = BatchCluster()
@@ -132,6 +154,8 @@ def shards(tier, seed):
                ["K1", "K1", "K1"], ["P3", "K2", "P3"]]
     if tier == "thorough":
         triples += [["K3", "K3", "K3"], ["K2K1", "K2K1", "K2K1"], ["K3", "P3", "K3"]]
+    sh.append(dict(h="cluster", params=dict(shapes=["K2", "P3", "E2"], use_attr=True)))
+    sh.append(dict(h="cluster", params=dict(shapes=["P3", "K2", "K2K1"], use_attr=True)))
     for i, t in enumerate(triples):
         sh.append(dict(h="cluster", params=dict(shapes=t, use_attr=bool(i % 2), same_ids=(i % 3 == 0))))
     if tier == "thorough":
